@@ -6,6 +6,6 @@ CONSTANTS
   Format = "ubjson"
   MaxLen = 6
   ExhLen = 0
-  Reps = {91, 123, 36, 35, 105, 1, 90, 93, 83}
+  Reps = {91, 123, 36, 35, 105, 1, 90, 93}
   OnlyAccepted = FALSE
   TokMode = "bytes"
